@@ -17,7 +17,7 @@ RULE = ('Record lists are written through VbsWriter.write, write_many, the conte
         '1014 blocks, @@ trailers, payload = reference stream then 0x40 fill) and read back through VbsReader and '
         'vbs_bytes_to_list. Enumerated: every single-record length 1..6000 blocked and unblocked, two-record files with '
         'the first length 990..1030. Hypothesis: 1..60 records, boundary-biased lengths, contents position-coded / '
-        '0x00 / 0x40 / prefix-shaped / random. Non-trivial = blocked, or >1 record, or a record >= 1008 bytes; distinct by '
+        '0x00 / 0x40 / prefix-shaped / random; files of 1100..6600 short records. Non-trivial = blocked, or >1 record, or a record >= 1008 bytes; distinct by '
         '(length list, content classes, blocked).')
 ASSUMPTIONS = ['records are non-empty and at most MAX_VBS_RECORD_LENGTH bytes (the stated domain)',
                'reference framing in vlib/refvbs.py is written from the format description in the mciipm module docstring']
@@ -201,8 +201,21 @@ def hyp_lists(ctx, n, maxlen=6000):
         cfgmod.config['MAX_VBS_RECORD_LENGTH'] = saved
 
 
+def many_records(ctx, n):
+    """files of 1100..6600 short records: the short spec is repeated (kept as `repeat` in the case so that replays stay small)"""
+    def body(v):
+        (spec, blocked), target = v
+        repeat = -(-target // len(spec))
+        ctx.case(key=harness.digest((spec, blocked, repeat)), nontrivial=True,
+                 labels=['many-records', 'blocked' if blocked else 'unblocked', 'records>=%d' % (1000 if target < 3000 else 3000)])
+        res = oracle(build(spec) * repeat, blocked, paths=True)
+        if res:
+            ctx.fail(res[0], {'spec': spec, 'blocked': blocked, 'repeat': repeat}, res[1])
+    harness.drive(ctx, st.tuples(spec_strategy(48, 12), st.sampled_from([1100, 1100, 3300, 6600])), body, n, salt='many')
+
+
 def tasks(tier, seed):
-    t = []
+    t = [('many_records', dict(n=6 if tier == 'quick' else 60)) for _ in range(2)]
     for blocked in (False, True):
         for lo in range(1, 6001, 500):
             t.append(('sweep_single', dict(lo=lo, hi=min(lo + 500, 6001), blocked=blocked)))
@@ -225,6 +238,6 @@ def replay(case):
     saved = cfgmod.config.get('MAX_VBS_RECORD_LENGTH')
     cfgmod.config['MAX_VBS_RECORD_LENGTH'] = maxlen
     try:
-        return oracle(build(spec), case['blocked'], paths=True)
+        return oracle(build(spec) * case.get('repeat', 1), case['blocked'], paths=True)
     finally:
         cfgmod.config['MAX_VBS_RECORD_LENGTH'] = saved
